@@ -227,6 +227,7 @@ class PathChecker:
         self.ex.base = list(self.base)
         self.friendly = None
         self.reproduced = 0
+        self.model_timeout_ms = 5000
 
     # -- model -> float-exact environment
     def _values_from_model(self, m):
@@ -249,12 +250,6 @@ class PathChecker:
         env = {}
         for name, v in vals.items():
             env[name] = v if isinstance(v, bool) else Fraction(v)
-        for c, tag in zip(self.ex.pc, self.ex.tags):
-            if tag and tag[0] == 'sqrt':
-                arg = evalq.evaluate(tag[1], env)
-                if arg < 0:
-                    raise evalq.EvalError('sqrt of negative')
-                env[tag[2].decl().name()] = Fraction(math.sqrt(float(arg)))
         return env
 
     def _pc_holds(self, env):
@@ -288,6 +283,15 @@ class PathChecker:
                 cs.append(z3.And(x - r <= z3.Q(7, 1600), r - x <= z3.Q(7, 1600)))
         return cs
 
+    def _dyadic(self):
+        """prefer witnesses whose real inputs are exactly representable floats (k/1024)"""
+        z3 = self.z3
+        cs = []
+        for name, kind in self.mk.decl.items():
+            if kind == 'real':
+                cs.append(1024 * z3.Real(name) == z3.ToReal(z3.Int('dy!' + name)))
+        return cs
+
     def concrete_run(self, vals):
         """run the same harness on the real, un-shimmed code with float inputs"""
         from .logic import ConcreteMaker
@@ -319,7 +323,7 @@ class PathChecker:
             s.add(*extra)
             blocked = 0
             while n < limit and blocked < 3:
-                r = s.check()
+                r = self.core.timed_check(s, self.model_timeout_ms)
                 if r != z3.sat:
                     break
                 m = s.model()
@@ -340,7 +344,7 @@ class PathChecker:
     def check(self, prefix):
         z3, core, ex, h = self.z3, self.core, self.ex, self.h
         res = dict(kind=None, obligations=0, discharged=0, trivial=0, unknown=[], violations=[], unreproduced=[], also_sat=[],
-                   twins={}, validated=0, validation_failed=[], inconclusive=[], outside=0, sample=None, decisions=0,
+                   twins={}, validated=0, validation_skipped=0, validation_failed=[], inconclusive=[], outside=0, sample=None, decisions=0,
                    solver_s=0.0, pending=[])
         t0 = time.time()
         kind, val, pending = ex.run_path(prefix, lambda: h.run(self.inp))
@@ -380,7 +384,16 @@ class PathChecker:
                 continue
             s.push()
             s.add(viol)
-            r = s.check()
+            tq = time.time()
+            # a fresh one-shot solver per obligation: z3's incremental core is much weaker on nonlinear goals
+            s1 = z3.Solver()
+            s1.add(*self.base)
+            s1.add(*ex.pc)
+            s1.add(*L.axioms)
+            s1.add(viol)
+            r = core.timed_check(s1, h.obligation_timeout_ms)
+            if os.environ.get('VERIF_TRACE'):
+                print('   obligation %-50s %s %.2fs' % (name, r, time.time() - tq), flush=True)
             if r == z3.unsat:
                 res['discharged'] += 1
             elif r == z3.unknown:
@@ -392,7 +405,7 @@ class PathChecker:
             f = L.bool(f)
             s.push()
             s.add(f)
-            r = s.check()
+            r = core.timed_check(s, 10000)
             s.pop()
             res['twins'][name] = (r == z3.sat)
         res['solver_s'] = time.time() - ts
@@ -417,9 +430,11 @@ class PathChecker:
             return
         tried = 0
         last = None
-        sets = [self._friendly() + self._interior(), self._friendly(), self._interior(), []]
+        dy = self._dyadic()
+        sets = [self._friendly() + self._interior() + dy, self._friendly() + dy, self._friendly() + self._interior(),
+                self._friendly(), self._interior() + dy, self._interior(), []]
         t_end = time.time() + 90
-        s.set('timeout', 8000)
+        self.model_timeout_ms = 8000
         for m in self._models(s, sets, 8):
             tried += 1
             if time.time() > t_end:
@@ -446,9 +461,7 @@ class PathChecker:
                                           outcome=cout.kind + (':' + type(cout.value).__name__ if cout.kind == 'raise' else ''),
                                           path=''.join('1' if b else '0' for b in self.ex.trace)))
             self.reproduced += 1
-            s.set('timeout', self.h.obligation_timeout_ms)
             return
-        s.set('timeout', self.h.obligation_timeout_ms)
         res['unreproduced'].append('%s (%d models tried; last: %s)' % (name, tried, last))
 
     def _validate(self, s, out, res):
@@ -457,7 +470,10 @@ class PathChecker:
         obs = self.h.observe(self.inp, out)
         msg = None
         tried = 0
-        for m in self._models(s, [self._friendly() + self._interior(), self._interior(), []], 4):
+        self.model_timeout_ms = 5000
+        dy = self._dyadic()
+        for m in self._models(s, [self._friendly() + self._interior() + dy, self._interior() + dy, dy,
+                                  self._friendly() + self._interior(), self._interior(), []], 6):
             tried += 1
             try:
                 vals = self._values_from_model(m)
@@ -483,7 +499,8 @@ class PathChecker:
                                          float_run=_short(cobs))
                 return
         if tried == 0:
-            msg = 'no witness (solver gave no model)'
+            res['validation_skipped'] += 1      # the solver produced no model within the witness budget: not a mismatch
+            return
         res['validation_failed'].append('path %s: %s' % (''.join('1' if b else '0' for b in self.ex.trace), msg))
 
     def _sample(self, s, out):
@@ -523,7 +540,7 @@ def run_job(job):
             pc = PathChecker(h)
             _W[key] = pc
         stack = [list(p) for p in job['prefixes']]
-        agg = dict(cfg=job['cfg'].get('name'), paths=0, decisions=0, obligations=0, discharged=0, trivial=0, unknown=[],
+        agg = dict(cfg=job['cfg'].get('name'), paths=0, decisions=0, obligations=0, discharged=0, trivial=0, unknown=[], validation_skipped=0,
                    violations=[], unreproduced=[], twins={}, validated=0, validation_failed=[], inconclusive=[],
                    outside=0, samples=[], solver_s=0.0, kinds={}, leftover=[], feas_queries=0, feas_unknown=0,
                    error=None, also_sat=[])
@@ -536,7 +553,7 @@ def run_job(job):
             stack.extend(r['pending'])
             agg['paths'] += 1
             agg['kinds'][r['kind']] = agg['kinds'].get(r['kind'], 0) + 1
-            for k in ('decisions', 'obligations', 'discharged', 'trivial', 'validated', 'outside', 'solver_s'):
+            for k in ('decisions', 'obligations', 'discharged', 'trivial', 'validated', 'validation_skipped', 'outside', 'solver_s'):
                 agg[k] += r[k]
             for k in ('unknown', 'violations', 'unreproduced', 'validation_failed', 'inconclusive', 'also_sat'):
                 agg[k].extend(r[k])
@@ -600,7 +617,7 @@ def run_property(prop, module, tier, seed=0, workers=None, deadline_s=None, extr
     order.sort(key=lambda i: -cfgs[i].get('weight', 1))
     workers = workers or min(16, os.cpu_count() or 4)
     deadline_s = deadline_s or getattr(mod, 'DEADLINE', {}).get(tier, 3600)
-    per = {c['name']: dict(paths=0, decisions=0, obligations=0, discharged=0, trivial=0, unknown=[], violations=[],
+    per = {c['name']: dict(paths=0, decisions=0, obligations=0, discharged=0, trivial=0, unknown=[], violations=[], validation_skipped=0,
                            unreproduced=[], twins={}, validated=0, validation_failed=[], inconclusive=[], outside=0,
                            samples=[], solver_s=0.0, kinds={}, feas_queries=0, feas_unknown=0, errors=[], leftover=0,
                            cpu_s=0.0, also_sat=[])
@@ -635,7 +652,7 @@ def run_property(prop, module, tier, seed=0, workers=None, deadline_s=None, extr
                 if a.get('error'):
                     p['errors'].append(a['error'])
                     continue
-                for k in ('paths', 'decisions', 'obligations', 'discharged', 'trivial', 'validated', 'outside', 'solver_s',
+                for k in ('paths', 'decisions', 'obligations', 'discharged', 'trivial', 'validated', 'validation_skipped', 'outside', 'solver_s',
                           'feas_queries', 'feas_unknown'):
                     p[k] += a[k]
                 p['cpu_s'] += a.get('wall_s', 0)
@@ -719,7 +736,7 @@ def finish(prop, mod, tier, seed, cfgs, per, functions, t0, timed_out, extra_evi
         property_id=prop, tier=tier, seed=seed, level='model_checking',
         coverage=dict(
             states=max(tot('paths'), 0), transitions=max(tot('decisions'), 0),
-            traces_validated_against_impl=tot('validated'),
+            traces_validated_against_impl=tot('validated'), paths_without_witness_in_budget=tot('validation_skipped'),
             samples=allsamples[:12] or [dict(note='no path explored')],
             obligations=tot('obligations'), discharged=tot('discharged'), discharged_trivially=tot('trivial'),
             undecided=sum(len(per[c['name']]['unknown']) for c in cfgs),
